@@ -90,6 +90,10 @@ func C07(c *vf.Check) {
 		}
 		total += len(run.Progs)
 		c.Note("C07 [%s size<=%s]: %d programs, %d cases; stage missing for %d cases", fam, size, len(run.Progs), len(cases), noStage)
+		if noStage > 0 {
+			// nothing to compare the optimised output with: the comparison would be vacuous
+			vf.Machinery("family %s: the unoptimised stage is missing (it did not build in the harness) for %d cases of programs whose output builds", fam, noStage)
+		}
 		c.Add("compiler_runs", int64(run.CompilerRuns))
 	}
 	runOne("opt", tier(c, "3", "4"), tier(c, "2", "3"), 5, srcOpts{Opt: true})
